@@ -57,6 +57,12 @@ MUTANTS = {
     "c06-const": ("pulsarbat/transforms/dedispersion.py", "/ u.pc / 2.41e-4", "/ u.pc / 2.410331e-4", ["C06"]),
     "c06-no-newstart": ("pulsarbat/transforms/dedispersion.py", "        new_start += crop_before * z.dt\n", "        pass\n", ["C06"]),
     "c06-halfup": ("pulsarbat/transforms/dedispersion.py", "delays = delays.round().astype(np.int64)", "delays = np.floor(delays + 0.5).astype(np.int64)", ["C06"]),
+    "c16-meta-nocopy": ("pulsarbat/core.py", "self._meta = None if meta is None else dict(meta)", "self._meta = meta if isinstance(meta, (dict, type(None))) else dict(meta)", ["C16"]),
+    "c16-bw-caller": ("pulsarbat/core.py", "            chan_bw=sample_rate,\n", "            chan_bw=sample_rate * (1 if z.shape[0] != 5 else 2),\n", ["C16"]),
+    "c16-dtype-drop": ("pulsarbat/core.py", "    _req_dtype = (np.float64, np.float32)", "    _req_dtype = (np.float64,)", ["C16"]),
+    "c16-unsafe-cast": ("pulsarbat/core.py", '_temp = z.astype(self._req_dtype[0], casting="safe")', '_temp = z.astype(self._req_dtype[0], casting="unsafe")', ["C16"]),
+    "c16-stokes-5": ("pulsarbat/core.py", "    _req_shape = (None, None, 4)", "    _req_shape = (None, None, None)", ["C16"]),
+    "c16-rate-nonpos": ("pulsarbat/core.py", "            assert temp.isscalar and temp > 0\n        except Exception:\n            raise ValueError(\n                \"Invalid sample_rate.", "            assert temp.isscalar and temp >= 0\n        except Exception:\n            raise ValueError(\n                \"Invalid sample_rate.", ["C16"]),
 }
 
 # behaviour-preserving edits: no check may fire
